@@ -29,6 +29,10 @@ def main(argv=None):
     except ImportError as exc:
         print('ANALYSIS-ERROR: no checker for %s (%s)' % (prop, exc))
         return 2
+    except Exception:
+        traceback.print_exc()
+        print('ANALYSIS-ERROR: checker for %s could not be loaded' % prop)
+        return 2
     try:
         repo = Repo(a.repo)
         rep = Report(prop, a.tier, a.repo, level=getattr(mod, 'LEVEL', 'other'))
